@@ -2,6 +2,8 @@
 
 from __future__ import annotations
 
+import struct
+
 from hypothesis import strategies as st
 
 from vlib import strategies as vs
@@ -21,7 +23,7 @@ ASSUMPTIONS = [
     "after a failed edit the contents (cell tuples, raw_data) are claimed unchanged; identity of the internal list is not claimed",
 ]
 REQUIRED_LABELS = {
-    "quick": ["fn_success", "gen_success", "fn_fail_interior", "gen_fail_interior", "attached", "detached", "second_edit", "scribble", "failure_mid_history", "follow_up_after_failure", "project_saved_before_edit", "moved_existing_notes", "exc_StopIteration", "exc_BoomBase"],
+    "quick": ["fn_success", "gen_success", "fn_fail_interior", "gen_fail_interior", "attached", "detached", "second_edit", "scribble", "failure_mid_history", "follow_up_after_failure", "project_saved_before_edit", "moved_existing_notes", "exc_StopIteration", "exc_BoomBase", "first_edit_on_never_read_pattern"],
     "thorough": ["fn_success", "gen_success", "fn_fail_interior", "gen_fail_interior", "attached", "detached", "second_edit", "scribble"],
 }
 
@@ -111,10 +113,13 @@ def cells_of(pattern):
     return [[int(n.note), n.vel, n.module, n.ctl, n.val] for line in pattern.data for n in line]
 
 
-def apply_edit(pattern, edit, fail_at):
-    """Run one bulk edit.  fail_at None = let it complete.  Returns expected cells on success."""
+def apply_edit(pattern, edit, fail_at, before=None):
+    """Run one bulk edit.  fail_at None = let it complete.  Returns expected cells on success.
+    before: what the pattern holds according to the model (so that nothing has to be read from
+    the pattern before the edit; a pattern that was never looked at is a legitimate receiver)."""
     tracks, lines = pattern.tracks, pattern.lines
-    before = cells_of(pattern)
+    if before is None:
+        before = cells_of(pattern)
     if edit["kind"] == "fn_rotate":
         n = tracks * lines
         k = edit["shift"] % n
@@ -209,6 +214,13 @@ def build(case):
     return pattern, project
 
 
+def initial_model(case):
+    cells = [[0, 0, 0, 0, 0] for _ in range(case["tracks"] * case["lines"])]
+    for idx, c in case["initial"]:
+        cells[idx] = list(c)
+    return cells
+
+
 def positions(n_total, complete):
     if complete or n_total <= 40:
         return list(range(n_total))
@@ -249,12 +261,15 @@ def run_case(ctx, case, only_fail_at=None):
     nontrivial_keys = []
     for fail_at in runs:
         pattern, project = build(case)
+        model = initial_model(case)
+        if not case["initial"] and not (case["attached"] and case.get("save_first")):
+            labels.add("first_edit_on_never_read_pattern")
         # earlier edits run on the same object; some of them fail half-way (then nothing may change)
         for ei, e in enumerate(edits[:-1]):
-            prev_cells = cells_of(pattern)
+            prev_cells = model
             fa = e.get("fail_at")
             try:
-                exp = apply_edit(pattern, e, fa)
+                exp = apply_edit(pattern, e, fa, before=model)
                 failed = False
             except (Exception, BoomBase):
                 if fa is None:
@@ -271,16 +286,17 @@ def run_case(ctx, case, only_fail_at=None):
                     "C19.failure.unchanged" if failed else "C19.success.contents",
                     "edit %d (%s, %s): cell %d is %r, expected %r" % (ei, e["kind"], "failed at %r" % fa if failed else "completed", bad, got[bad], exp[bad]),
                 )
+            model = exp
             check_ownership(pattern, project, "after edit %d (%s)" % (ei, e["kind"]))
             labels.add("second_edit")
             if e["kind"] in ("fn_rotate", "gen_swap"):
                 labels.add("moved_existing_notes")
             if project is not None and case.get("save_first") and ei % 2 == 0:
                 project.read()
-        before_cells = cells_of(pattern)
-        before_raw = pattern.raw_data
+        before_cells = model
+        before_raw = b"".join(struct.pack("<BBHHH", *c) for c in model)
         if fail_at is None:
-            exp = apply_edit(pattern, last, None)
+            exp = apply_edit(pattern, last, None, before=model)
             got = cells_of(pattern)
             if got != exp:
                 bad = next(i for i, (a, b) in enumerate(zip(got, exp)) if a != b)
@@ -292,7 +308,7 @@ def run_case(ctx, case, only_fail_at=None):
         else:
             raised = None
             try:
-                apply_edit(pattern, last, fail_at)
+                apply_edit(pattern, last, fail_at, before=model)
             except (Exception, BoomBase) as b:
                 raised = b
                 labels.add("exc_" + (last.get("exc") or "Boom"))
